@@ -87,7 +87,11 @@ impl super::Connector for QuicConnector {
         _state: Arc<GlobalState>,
         ctx: ContextRef,
     ) -> Result<(), Error> {
-        let (conn, sessions) = self.get_connection().await?;
+        // dialling is bounded as well: an unreachable upstream must not keep the shared slot (and every request
+        // queued behind it) busy until QUIC's own idle timeout
+        let (conn, sessions) = tokio::time::timeout(HANDSHAKE_TIMEOUT, self.get_connection())
+            .await
+            .unwrap_or_else(|_| Err(err_msg("quic: upstream did not complete the QUIC handshake in time")))?;
         let remote = conn.remote_address();
         let local = self
             .endpoint
@@ -95,10 +99,16 @@ impl super::Connector for QuicConnector {
             .unwrap()
             .local_addr()
             .context("local_addr")?;
-        let ret = self
-            .clone()
-            .handshake(conn, sessions, ctx.clone(), remote, local)
-            .await;
+        // The shared connection may be dead without the local endpoint knowing yet (upstream crashed or was
+        // restarted): the CONNECT exchange then never completes.  Bound it, and treat the timeout like any other
+        // failure of the shared connection, so that the next request dials a new one.
+        let ret = tokio::time::timeout(
+            HANDSHAKE_TIMEOUT,
+            self.clone()
+                .handshake(conn, sessions, ctx.clone(), remote, local),
+        )
+        .await
+        .unwrap_or_else(|_| Err(err_msg("quic: upstream did not answer the CONNECT request in time")));
         match ret {
             Ok(()) => Ok(()),
             Err(e) => {
@@ -110,6 +120,9 @@ impl super::Connector for QuicConnector {
         }
     }
 }
+
+// how long the CONNECT exchange over the shared QUIC connection may take
+const HANDSHAKE_TIMEOUT: std::time::Duration = std::time::Duration::from_secs(10);
 
 impl QuicConnector {
     async fn handshake(
